@@ -73,8 +73,8 @@ class SigmaRuleBase:
         for field in ("references", "tags", "fields", "falsepositives"):
             if self.__getattribute__(field) is None:
                 self.__setattr__(field, [])
-        if self.id is not None and not isinstance(
-            self.id, UUID
+        if isinstance(
+            self.id, str
         ):  # Try to convert rule id into UUID object, but keep it if not possible
             try:
                 self.id = UUID(self.id)
@@ -144,6 +144,8 @@ class SigmaRuleBase:
         rule_id = rule.get("id")
         if rule_id is not None:
             try:
+                if not isinstance(rule_id, str):
+                    raise ValueError("Sigma rule identifier must be a string")
                 rule_id = UUID(rule_id)
             except ValueError:
                 errors.append(
